@@ -756,6 +756,11 @@ func evalCall(c Call, ctx *Ctx) interface{} {
 			}
 			n = ns[0]
 		}
+		if n.Doc.DataAsName && (n.Kind == xdoc.Text || n.Kind == xdoc.Comment) && c.Name != "namespace-uri" {
+			// the navigator of this document reports character data as the name of text and comment nodes (as
+			// xmlquery does): what the name functions say about such a node is the navigator's business
+			panic(OutOfFragment{"name function of a text or comment node under a navigator that reports its data as LocalName()"})
+		}
 		switch c.Name {
 		case "name":
 			return n.QName()
